@@ -318,7 +318,9 @@ func scalarFor(r *rng, d rscp.DataType) (*jn, interface{}) {
 		v := pick(32, false)
 		return intLit(v), rscp.RscpError(v.Uint64())
 	case rscp.Float32:
-		lits := []string{"0", "-0", "1.5", "0.1", "3.4028235e38", "1e-45", "16777217", "-2.5e10", "0.30000001192092896"}
+		lits := []string{"0", "-0", "1.5", "0.1", "3.4028235e38", "1e-45", "16777217", "-2.5e10", "0.30000001192092896",
+			// within half a float64 ulp of the midpoint of two adjacent float32 values (rounding twice goes wrong), and the largest value that still rounds to MaxFloat32
+			"1.00000005960464477540", "1.00000017881393432617", "340282356779733661637539395458142568447", "0.50000002980232238770", "16777217.0000000001"}
 		l := lits[r.intn(len(lits))]
 		f, _ := strconv.ParseFloat(l, 32)
 		return jnum(l), float32(f)
@@ -804,6 +806,8 @@ func init() {
 				{c(A, s(S, 1)), c(A, s(S, 2)), c(A, s(S, 3))}, {c(C, c(A, s(S, 1)), c(A, s(S, 2))), c(C, c(A, s(S, 3)))},
 				{s(S, 1), s(S, 2)}, {s(A, 1), c(A, s(S, 2))}, {c(A, s(S, 2)), s(A, 1)}, {s(A, 1), c(A, s(S, 2)), c(A, s(S, 3))}, {c(A, s(S, 2)), s(A, 1), c(A, s(S, 3))},
 				{c(A, c(B, c(C, c(A, s(S, 9)))))},
+				{c(A, s(S, 1)), c(A, s(S, 2)), s(A, 7)}, {c(A, s(S, 1)), c(A, s(S, 2)), s(A, 7), c(A, s(S, 3))}, {c(A, s(S, 1)), c(A, s(S, 2)), c(A, s(S, 3)), s(A, 7)},
+				{c(C, c(A, s(S, 1)), c(A, s(S, 2)), s(A, 7))}, {s(A, 1), c(A, s(S, 1)), s(A, 2), c(A, s(S, 2)), s(A, 3)},
 			}
 			for _, ms := range fixed {
 				for _, f := range formats {
@@ -882,6 +886,15 @@ func init() {
 				if !json.Valid(doc) {
 					return "the output is not a valid JSON document"
 				}
+				if f[1] == "jsonmerged" {
+					var top map[string]json.RawMessage
+					if err := json.Unmarshal(doc, &top); err != nil {
+						return "jsonmerged does not print an object"
+					}
+					if why := checkNoLoss(ms, top); why != "" {
+						return why
+					}
+				}
 			}
 			return ""
 		},
@@ -897,4 +910,49 @@ func init() {
 		},
 		nontrivial: func(c, res string) bool { return strings.Count(strings.SplitN(c, " | ", 2)[0], "(") > 3 },
 	}
+}
+
+// checkNoLoss: in jsonmerged every tag under which containers arrived holds exactly those containers - one object for a
+// single occurrence, the array of all occurrences in order for several - whatever else arrived under the tag
+func checkNoLoss(ms []rscp.Message, obj map[string]json.RawMessage) string {
+	var order []rscp.Tag
+	conts := map[rscp.Tag][][]rscp.Message{}
+	for _, m := range ms {
+		if kids, ok := m.Value.([]rscp.Message); ok {
+			if _, seen := conts[m.Tag]; !seen {
+				order = append(order, m.Tag)
+			}
+			conts[m.Tag] = append(conts[m.Tag], kids)
+		}
+	}
+	for _, t := range order {
+		kb, _ := json.Marshal(t)
+		var key string
+		_ = json.Unmarshal(kb, &key)
+		raw, ok := obj[key]
+		if !ok {
+			return fmt.Sprintf("the containers that arrived under %s are missing from the output", key)
+		}
+		cs := conts[t]
+		if len(cs) == 1 {
+			var sub map[string]json.RawMessage
+			if err := json.Unmarshal(raw, &sub); err != nil {
+				return fmt.Sprintf("the container that arrived under %s was replaced by other data", key)
+			}
+			if why := checkNoLoss(cs[0], sub); why != "" {
+				return why
+			}
+			continue
+		}
+		var arr []map[string]json.RawMessage
+		if err := json.Unmarshal(raw, &arr); err != nil || len(arr) != len(cs) {
+			return fmt.Sprintf("%d containers arrived under %s but the output does not hold all of them", len(cs), key)
+		}
+		for i := range cs {
+			if why := checkNoLoss(cs[i], arr[i]); why != "" {
+				return why
+			}
+		}
+	}
+	return ""
 }
